@@ -4,6 +4,7 @@ import (
 	"fmt"
 	"strings"
 	"time"
+	_ "time/tzdata" // the zone database, so that the check does not depend on the host's
 	"unicode/utf8"
 
 	"github.com/emersion/go-sasl"
@@ -51,6 +52,7 @@ type RcptO struct {
 	OType  string
 	ORcpt  string
 	RRVS   string // RFC3339 or ""
+	Zone   string // IANA zone the time.Time given to the client is in ("" = the fixed offset of the text)
 }
 
 func printable(s string) bool {
@@ -135,6 +137,12 @@ func evalC14(c C14Case) (*h.Finding, string) {
 			t, err := time.Parse(time.RFC3339, c.Rcpt.RRVS)
 			if err != nil {
 				return h.F("harness-error", "bad time %q", c.Rcpt.RRVS), ""
+			}
+			if c.Rcpt.Zone != "" {
+				// the same instant as a time.Time in a real zone with daylight-saving rules
+				if loc, err := time.LoadLocation(c.Rcpt.Zone); err == nil {
+					t = t.In(loc)
+				}
 			}
 			ro.RequireRecipientValidSince = t
 		}
@@ -449,6 +457,29 @@ func C14(tier string) int {
 	for _, a := range []string{"simple@d.example", "user+tag@sub.d.example", "a.b.c@d.example", "x@[192.0.2.1]", "pelé@exämple.example", "日本@例え.example", "!#$%&'*+-/=?^_`{|}~@d.example",
 		"user@d.example.", "UPPER.lower@D.Example", "a@b", "x@[IPv6:2001:db8::1]", "1234567890@0.example", "a-b_c@d-e.example"} {
 		cases = append(cases, C14Case{Field: "address", Value: a, UTF8: true})
+	}
+	// long values (the xtext form of a value can be three times as long as the value)
+	for _, v := range []string{strings.Repeat("+", 34), strings.Repeat("a=b c+", 16), strings.Repeat("x", 98) + "==", strings.Repeat("id ", 33), strings.Repeat("é", 50), strings.Repeat("k", 100), strings.Repeat("=", 100), strings.Repeat("q+", 150), strings.Repeat("z", 500)} {
+		cases = append(cases, C14Case{Field: "envid", Value: v, UTF8: true}, C14Case{Field: "orcpt-rfc822", Value: v + "@o.example", UTF8: true}, C14Case{Field: "orcpt-utf8", Value: v + "@o.example", UTF8: true}, C14Case{Field: "orcpt-utf8", Value: v + "@o.example", UTF8: false})
+		if len(v) <= 64 {
+			cases = append(cases, C14Case{Field: "auth", Value: v + "@d.example", UTF8: true})
+		}
+	}
+	// non-ASCII mailboxes whose UTF-8 contains the octets 0x85 / 0xA0 and other continuation octets
+	for _, a := range []string{"info@università.example", "jan@książka.example", "x@慠.example", "àą@d.example", "Å@Åland.example"} {
+		cases = append(cases, C14Case{Field: "address", Value: a, UTF8: true})
+	}
+	// RRVS times in real zones with daylight saving, in the hour that occurs twice (both passes) and the hour that does not
+	// exist, and with odd offsets
+	for _, z := range []struct{ zone, local string }{{"Europe/Berlin", "2021-10-31T02:30:00"}, {"America/New_York", "2021-11-07T01:30:00"}, {"Europe/Berlin", "2021-03-28T03:30:00"}, {"Asia/Kathmandu", "2021-06-01T12:00:00"}, {"Australia/Lord_Howe", "2021-04-04T01:45:00"}} {
+		loc, err := time.LoadLocation(z.zone)
+		if err != nil {
+			continue
+		}
+		t0, _ := time.ParseInLocation("2006-01-02T15:04:05", z.local, loc)
+		for _, t := range []time.Time{t0, t0.Add(time.Hour), t0.Add(-time.Hour), t0.Add(30 * time.Minute)} {
+			cases = append(cases, C14Case{Field: "rcptopts", UTF8: true, Rcpt: &RcptO{RRVS: t.Format(time.RFC3339), Zone: z.zone}})
+		}
 	}
 	// the decoded AUTH identity goes through the same mailbox parser as the paths
 	for _, a := range []string{"user@d.example.", "UPPER.lower@D.Example"} {
